@@ -110,6 +110,15 @@ func (r *RibEntry) pruneIfEmpty() {
 }
 
 func (r *RibEntry) updateNexthopsEnc() {
+	// Entries without a name are fillers created for longer prefixes: they
+	// have no FIB entry of their own, only their children need updating.
+	if r.Name == nil {
+		for child := range r.children {
+			child.updateNexthopsEnc()
+		}
+		return
+	}
+
 	FibStrategyTable.ClearNextHopsEnc(r.Name)
 
 	// All routes including parents if needed
